@@ -4,6 +4,7 @@ Model: SkNet/Model/Ingest.lean (from_edge_array, from_edge_list, from_adjacency_
 from_csv), Persist.lean (save / load, is_within_directory, safe_extract). Specification: SkNet/Spec/Ingest.lean.
 -/
 import SkNet.Lemmas.Ingest
+import SkNet.Lemmas.Persist
 import SkNet.Model.Csv
 import SkNet.Model.Persist
 
@@ -326,7 +327,82 @@ theorem unweighted_binary [DecidableEq α] (f : Flags) (hw : f.weighted = false)
   · exact key _
   · exact key _
 
-/-! ## path containment -/
+/-! ## ★ save_load_roundtrip -/
+
+/-- **save_load_roundtrip.** For a dataset whose keys are distinct attribute names (not empty, no path separator,
+    no dot), `save` writes exactly one file per attribute (`key.npz` for a csr matrix, `key.npy` for an ndarray,
+    `key.p` for anything else — whatever was in the folder before is removed), and `load`, in whatever order
+    `listdir` returns these files, gives back every attribute with its key, type tag and payload: the dataset
+    itself, up to the order of its keys. -/
+theorem save_load_roundtrip (d : Dataset) (old : Folder)
+    (hk : (d.map (·.key)).Nodup) (hp : ∀ a ∈ d, plainKey a.key = true ∧ DotFree a.key) :
+    save old (.dataset d) = .ok (d.map fileOf) ∧
+    ∀ d', d'.Perm d → load (some (d'.map fileOf)) = .ok d' := by
+  constructor
+  · unfold save
+    simp only
+    have := saveBundle_eq [] d (fun a ha => (hp a ha).1)
+      (by simpa using names_nodup d hk (fun a ha => (hp a ha).2))
+    simpa using this
+  · intro d' hperm
+    unfold load loadBundle
+    simp only
+    have hk' : ((([] : Dataset) ++ d').map Attr.key).Nodup := by
+      simp only [List.nil_append]
+      exact (hperm.map _).nodup_iff.mpr hk
+    have := loadFrom_fileOf [] d' (fun a ha => (hp a (hperm.mem_iff.mp ha)).2) hk'
+    simpa using this
+
+example : (([⟨"adjacency".toList, .csr, 0⟩, ⟨"names".toList, .ndarray, 1⟩, ⟨"meta".toList, .other, 2⟩] : Dataset).map
+    Attr.key).Nodup ∧ plainKey "adjacency".toList = true ∧ DotFree "adjacency".toList := by
+  refine ⟨by decide, by decide, ?_⟩
+  unfold DotFree; decide
+
+/-- a bare csr matrix is saved as the attribute `adjacency` (square) or `biadjacency` and loaded back -/
+theorem save_load_matrix (sq : Bool) (p : Nat) (old : Folder) :
+    ∃ fs, save old (.matrix sq p) = .ok fs ∧
+      load (some fs) = .ok [⟨if sq then "adjacency".toList else "biadjacency".toList, .csr, p⟩] := by
+  cases sq <;> exact ⟨_, rfl, rfl⟩
+
+/-- outside the hypothesis: an attribute whose key contains a dot is written to disk but silently dropped by
+    `load` (the file name splits into three parts) -/
+theorem dotted_key_is_lost :
+    ∃ fs, save [] (.dataset [⟨"a.b".toList, .ndarray, 0⟩]) = .ok fs ∧ fs.length = 1 ∧ load (some fs) = .ok [] := by
+  exact ⟨_, rfl, rfl, rfl⟩
+
+/-! ## ★ extract_contained -/
+
+/-- **extract_contained.** If `is_within_directory(dir, target)` (as repaired: `commonpath`) answers True, the
+    normalised target has the normalised directory as a *component* prefix: it is the folder or below it. -/
+theorem extract_contained (cwd directory target : Chars)
+    (h : isWithinDirectory cwd directory target = true) :
+    Inside (abspath cwd directory) (abspath cwd target) :=
+  within_sound cwd directory target h
+
+/-- `safe_extract` either refuses the archive or every member is written inside the folder — for all member names. -/
+theorem safe_extract_contained (cwd path : Chars) (members : List Chars) (ps : List APath)
+    (h : safeExtract cwd path members = .ok ps) :
+    ps = members.map (fun m => abspath cwd (joinPath path m)) ∧
+    ∀ p ∈ ps, Inside (abspath cwd path) p := by
+  unfold safeExtract safeExtractWith at h
+  split at h
+  · rename_i hall
+    cases h
+    refine ⟨rfl, ?_⟩
+    intro p hp
+    obtain ⟨m, hm, rfl⟩ := List.mem_map.mp hp
+    rw [List.all_eq_true] at hall
+    exact within_sound cwd path _ (hall m hm)
+  · cases h
+
+/-- no false refusal: a target inside a folder whose absolute path starts with a single slash is accepted -/
+theorem within_accepts_inside (cwd directory target : Chars) (h1 : (abspath cwd directory).slashes = 1)
+    (h : Inside (abspath cwd directory) (abspath cwd target)) :
+    isWithinDirectory cwd directory target = true :=
+  within_complete cwd directory target h1 h
+
+example : isWithinDirectory "/home/u".toList "data".toList "data/sub/../x.npz".toList = true ∧
+    isWithinDirectory "/home/u".toList "data".toList "data/../data_evil/x".toList = false := by decide
 
 /-- F12 (pinned code): the character-prefix test accepts a member that leaves the folder. -/
 theorem pinned_within_admits_escape :
